@@ -35,6 +35,8 @@ type Config struct {
 	Ids     [][2]string         `json:"ids"`   // every (kind, id) the behaviours may activate / spawn
 	Kinds   []string            `json:"kinds"` // kinds asked through HasKind
 	Up      []string            `json:"up"`    // members at the start
+	// provider mode (C20): node 0 runs the real self-managed provider; the steps are its inputs
+	Provider bool `json:"provider"`
 }
 
 type PidJ struct {
@@ -71,6 +73,11 @@ type Step struct {
 	Up     []string             `json:"up"`
 	State  map[string]NodeState `json:"state"`
 	Events []EvJ                `json:"events"`
+	// provider mode
+	L       []string `json:"l,omitempty"`       // member list of a Members message
+	Addr    string   `json:"addr,omitempty"`    // member whose address is reported unreachable ("X": nobody's)
+	Reply   []string `json:"reply,omitempty"`   // member list the handshake is answered with
+	Members []string `json:"members,omitempty"` // the provider's member list after the step
 }
 
 type Scenario struct {
@@ -172,7 +179,11 @@ func newRig(cfg Config) (*rig, error) {
 		}
 		n.e = e
 		stub := func(c *cluster.Cluster) actor.Producer { return func() actor.Receiver { return idle{} } }
-		c, err := cluster.New(cluster.NewConfig().WithEngine(e).WithProvider(stub).WithID(name).WithRequestTimeout(3 * time.Second))
+		ccfg := cluster.NewConfig().WithEngine(e).WithID(name).WithRequestTimeout(3 * time.Second)
+		if !cfg.Provider {
+			ccfg = ccfg.WithProvider(stub)
+		}
+		c, err := cluster.New(ccfg)
 		if err != nil {
 			return nil, err
 		}
@@ -192,6 +203,10 @@ func newRig(cfg Config) (*rig, error) {
 				ev = &EvJ{"activation", name, r.name[m.PID.Address]}
 			case cluster.DeactivationEvent:
 				ev = &EvJ{"deactivation", name, r.name[m.PID.Address]}
+			case actor.ActorRestartedEvent:
+				if strings.HasPrefix(m.PID.ID, "provider/") {
+					ev = &EvJ{"provider-restarted", name, ""}
+				}
 			case marker:
 				n.mark <- m.N
 			}
@@ -334,7 +349,143 @@ func describe(st Step) string {
 	return st.Act + "(" + st.N + ")"
 }
 
+// ---------------------------------------------------------------- provider mode (C20)
+
+const probeAddr = "127.0.0.1:41998"
+const unknownAddr = "127.0.0.1:41999"
+
+// handshake sends a Handshake for member m to the provider and returns the member list it is answered with
+func (r *rig) handshake(n *node, m string) ([]string, error) {
+	sender := actor.NewPID(probeAddr, "provider/probe")
+	prov := actor.NewPID(n.addr, "provider/"+n.name)
+	n.e.SendWithSender(prov, &cluster.Handshake{Member: r.member(m)}, sender)
+	deadline := time.Now().Add(3 * time.Second)
+	for time.Now().Before(deadline) {
+		r.net.mu.Lock()
+		k := n.name + ">" + probeAddr
+		q := r.net.queues[k]
+		var got *cluster.Members
+		for len(q) > 0 && got == nil {
+			if ms, ok := q[0].msg.(*cluster.Members); ok {
+				got = ms
+			}
+			q = q[1:]
+		}
+		r.net.queues[k] = q
+		r.net.mu.Unlock()
+		if got != nil {
+			ids := []string{}
+			for _, x := range got.Members {
+				ids = append(ids, x.ID)
+			}
+			sort.Strings(ids)
+			return ids, nil
+		}
+		time.Sleep(200 * time.Microsecond)
+	}
+	return nil, fmt.Errorf("the provider does not answer the handshake of %s with its member list", m)
+}
+
+func runProviderScenario(cfg Config, sc Scenario) (fail *Failure) {
+	r, err := newRig(cfg)
+	names := []string{}
+	bad := func(i int, what string) *Failure {
+		return &Failure{Scenario: sc.ID, Step: i, What: what, Steps: names}
+	}
+	if err != nil {
+		return bad(-1, "harness: "+err.Error())
+	}
+	n := r.nodes[cfg.Nodes[0]]
+	defer n.c.Stop()
+	prov := actor.NewPID(n.addr, "provider/"+n.name)
+	// the provider is up once it has told its agent about itself
+	for t0 := time.Now(); ; {
+		ms := n.c.Members()
+		if len(ms) == 1 && ms[0].ID == n.name {
+			break
+		}
+		if time.Since(t0) > 5*time.Second {
+			return bad(-1, "harness: the provider does not come up")
+		}
+		time.Sleep(time.Millisecond)
+	}
+	for i, st := range sc.Steps {
+		want := fmt.Sprint(st.Members)
+		switch st.Act {
+		case "Handshake":
+			names = append(names, "handshake("+st.M+")")
+			ids, err := r.handshake(n, st.M)
+			if err != nil {
+				return bad(i, err.Error())
+			}
+			if fmt.Sprint(ids) != fmt.Sprint(st.Reply) {
+				return bad(i, fmt.Sprintf("the handshake of %s is answered with the member list %v, expected %v", st.M, ids, st.Reply))
+			}
+		case "MembersMsg":
+			names = append(names, fmt.Sprintf("members(%v)", st.L))
+			var ms []*cluster.Member
+			for _, m := range st.L {
+				ms = append(ms, r.member(m))
+			}
+			n.e.Send(prov, &cluster.Members{Members: ms})
+		case "Unreachable":
+			names = append(names, "unreachable("+st.Addr+")")
+			addr := unknownAddr
+			if a, ok := r.addr[st.Addr]; ok {
+				addr = a
+			}
+			n.e.BroadcastEvent(actor.RemoteUnreachableEvent{ListenAddr: addr})
+			if err := r.settle(n); err != nil { // the event stream has passed it to the provider's event child
+				return bad(i, err.Error())
+			}
+			time.Sleep(5 * time.Millisecond) // child -> provider hop
+		}
+		// the provider's own list (it answers every handshake with its complete member list) ...
+		var ids []string
+		deadline := time.Now().Add(2 * time.Second)
+		for {
+			ids, err = r.handshake(n, n.name)
+			if err != nil {
+				return bad(i, err.Error())
+			}
+			if fmt.Sprint(ids) == want || time.Now().After(deadline) {
+				break
+			}
+			time.Sleep(2 * time.Millisecond)
+		}
+		if fmt.Sprint(ids) != want {
+			return bad(i, fmt.Sprintf("after %s the provider's member list is %v, expected %v", names[len(names)-1], ids, st.Members))
+		}
+		// ... and what the agent has been told
+		var view []string
+		for {
+			view = view[:0]
+			for _, m := range n.c.Members() {
+				view = append(view, m.ID)
+			}
+			sort.Strings(view)
+			if fmt.Sprint(view) == want || time.Now().After(deadline) {
+				break
+			}
+			time.Sleep(2 * time.Millisecond)
+		}
+		if fmt.Sprint(view) != want {
+			return bad(i, fmt.Sprintf("after %s the agent's view is %v, the provider's list %v", names[len(names)-1], view, st.Members))
+		}
+		_ = r.settle(n)
+		for _, e := range r.takeEvents() {
+			if e.E == "provider-restarted" {
+				return bad(i, "the provider actor crashed and was restarted while handling "+names[len(names)-1])
+			}
+		}
+	}
+	return nil
+}
+
 func runScenario(cfg Config, sc Scenario) (fail *Failure) {
+	if cfg.Provider {
+		return runProviderScenario(cfg, sc)
+	}
 	r, err := newRig(cfg)
 	names := []string{}
 	bad := func(i int, what string) *Failure {
@@ -379,7 +530,7 @@ func runScenario(cfg Config, sc Scenario) (fail *Failure) {
 						return m
 					}
 				}
-				return nil // the code offers other candidates than the model: shows as a wrong result
+				return r.member(want) // a select function is free to ignore the candidates it is offered
 			}
 			pid := n.c.Activate(st.K, cluster.NewActivationConfig().WithID(st.I).WithSelectMemberFunc(sel))
 			got := "nil"
